@@ -179,11 +179,13 @@ impl ConnectionState {
                 };
                 *self = ConnectionState::ServerClosing(close);
 
+                // Consumers first: a consumer can only be dropped once its owner thread is
+                // released by slot.tx, so until then the consumers' receivers are still alive.
                 for (_, mut slot) in inner.chan_slots.drain() {
-                    send(&slot.tx, Err(make_err()))?;
                     for (_, tx) in slot.consumers.drain() {
                         send(&tx, ConsumerMessage::ServerClosedConnection(make_err()))?;
                     }
+                    send(&slot.tx, Err(make_err()))?;
                 }
             }
             // Server ack for client-initiated connection close.
@@ -197,11 +199,12 @@ impl ConnectionState {
                     .map_err(|_| Error::EventLoopClientDropped)?;
                 *self = ConnectionState::ClientClosed;
 
+                // Consumers first (see server-initiated connection close above).
                 for (_, mut slot) in inner.chan_slots.drain() {
-                    send(&slot.tx, Err(Error::ClientClosedConnection))?;
                     for (_, tx) in slot.consumers.drain() {
                         send(&tx, ConsumerMessage::ClientClosedConnection)?;
                     }
+                    send(&slot.tx, Err(Error::ClientClosedConnection))?;
                 }
             }
             // Server is blocking publishes due to an alarm on its side (e.g., low mem)
@@ -235,10 +238,11 @@ impl ConnectionState {
                     code: close.reply_code,
                     message: close.reply_text.clone(),
                 };
-                send(&slot.tx, Err(make_err()))?;
+                // Consumers first (see server-initiated connection close above).
                 for (_, tx) in slot.consumers.drain() {
                     send(&tx, ConsumerMessage::ServerClosedChannel(make_err()))?;
                 }
+                send(&slot.tx, Err(make_err()))?;
                 inner.push_method(n, AmqpChannel::CloseOk(ChannelCloseOk {}));
             }
             // Server ack for client-initiated channel close.
@@ -249,15 +253,16 @@ impl ConnectionState {
                 // an error to get a CloseOk for a nonexistent slot, since the server is
                 // confirming that a channel is gone (and we don't have it anymore anyway).
                 if let Ok(mut slot) = slot_remove(inner, n) {
+                    // Consumers first (see server-initiated connection close above).
+                    for (_, tx) in slot.consumers.drain() {
+                        send(&tx, ConsumerMessage::ClientClosedChannel)?;
+                    }
                     send(
                         &slot.tx,
                         Ok(ChannelMessage::Method(AMQPClass::Channel(
                             AmqpChannel::CloseOk(close_ok),
                         ))),
                     )?;
-                    for (_, tx) in slot.consumers.drain() {
-                        send(&tx, ConsumerMessage::ClientClosedChannel)?;
-                    }
                 }
             }
             // Server ack for consume request.
@@ -294,15 +299,16 @@ impl ConnectionState {
             AMQPFrame::Method(n, AMQPClass::Basic(AmqpBasic::CancelOk(cancel_ok))) => {
                 let slot = slot_get_mut(inner, n)?;
                 let consumer = slot.consumers.remove(&cancel_ok.consumer_tag);
+                // Consumer first (see server-initiated connection close above).
+                if let Some(tx) = consumer {
+                    send(&tx, ConsumerMessage::ClientCancelled)?;
+                }
                 send(
                     &slot.tx,
                     Ok(ChannelMessage::Method(AMQPClass::Basic(
                         AmqpBasic::CancelOk(cancel_ok),
                     ))),
                 )?;
-                if let Some(tx) = consumer {
-                    send(&tx, ConsumerMessage::ClientCancelled)?;
-                }
             }
             // Server beginning delivery of content to a consumer.
             AMQPFrame::Method(n, AMQPClass::Basic(AmqpBasic::Deliver(deliver))) => {
